@@ -377,6 +377,20 @@ class Machine:
         args = gen.eval_args(rng, params, self.cfg)
         spell = rng.choice(["pos", "pos", "kw", "idx", "attrcall"]) if args else rng.choice(["pos", "value", "idx", "attrcall"])
         loc = [x for x in s.path().split(".")]
+        if self.cfg.get("nested_item_eval"):
+            # every parametrised space on the path may contribute an item segment (nested ItemSpaces)
+            chain = []
+            x = s
+            while isinstance(x, rm.RSpace):
+                chain.append(x)
+                x = x.parent
+            loc = []
+            for x in reversed(chain):
+                loc.append(x.name)
+                if x.formula is not None and rng.random() < self.cfg.get("p_item_eval", 0.5):
+                    iargs = [rng.randrange(0, 3) for p, dflt in x.formula["params"] if dflt is None or rng.random() < 0.4]
+                    loc.append(["item", iargs, rng.choice(["idx", "call"])])
+            return {"op": "eval", "loc": loc, "name": n, "args": args, "spell": spell}
         if s.formula is not None and rng.random() < self.cfg.get("p_item_eval", 0.5):
             iargs = [rng.randrange(0, 3) for p, dflt in s.formula["params"] if dflt is None or rng.random() < 0.4]
             loc = loc + [["item", iargs, rng.choice(["idx", "call"])]]
